@@ -64,6 +64,10 @@ DIRECTED = [
     {"grid": [1, 1, 1], "chunk": 4, "rem": [0, 0, 0], "minishard_bits": 1, "shard_bits": 0,
      "preshift_bits": 0, "minishard_index_encoding": "gzip", "data_encoding": "raw",
      "data_type": "uint8", "num_channels": 1},
+    # minishards whose data exceeds the 4096-byte read size of the on-disk byte array
+    {"grid": [4, 2, 2], "chunk": 8, "rem": [7, 7, 7], "minishard_bits": 1, "shard_bits": 0,
+     "preshift_bits": 0, "minishard_index_encoding": "raw", "data_encoding": "raw",
+     "data_type": "uint32", "num_channels": 2},
     {"grid": [3, 5, 2], "chunk": 2, "rem": [0, 1, 1], "minishard_bits": 1, "shard_bits": 13,
      "preshift_bits": 1, "minishard_index_encoding": "raw", "data_encoding": "gzip",
      "data_type": "uint32", "num_channels": 2},
@@ -79,6 +83,10 @@ def gen_cases(tier, seed):
             for strategy in ("on disk", "in memory"):
                 cases.append({"cfg": d, "subset_kind": kind, "sseed": rnd.randrange(2 ** 32),
                               "oseed": rnd.randrange(2 ** 32), "strategy": strategy})
+    for _ in range(n // 10):
+        cases.append({"cfg": shardlib.gen_config_large(rnd), "subset_kind": "large",
+                      "sseed": rnd.randrange(2 ** 32), "oseed": rnd.randrange(2 ** 32),
+                      "strategy": rnd.choice(["on disk", "in memory"])})
     for _ in range(n):
         cases.append({"cfg": shardlib.gen_config(rnd, tier), "subset_kind": None,
                       "sseed": rnd.randrange(2 ** 32), "oseed": rnd.randrange(2 ** 32),
@@ -100,12 +108,17 @@ def run_case(case):
     import numpy as np
     cfg = case["cfg"]
     rnd = random.Random(case["sseed"])
-    kind, subset = shardlib.gen_subset(cfg, rnd, case["subset_kind"])
+    if cfg.get("large"):
+        kind, subset = "large", shardlib.gen_subset_large(cfg, rnd)
+    else:
+        kind, subset = shardlib.gen_subset(cfg, rnd, case["subset_kind"])
     order = list(subset)
     random.Random(case["oseed"]).shuffle(order)
     d = tempfile.mkdtemp(prefix="c04-")
     v = []
-    prof = shardlib.gap_profile(cfg, subset)
+    prof = shardlib.gap_profile(cfg, subset) if not cfg.get("large") else {
+        "start": 0, "middle": 0, "end": 0, "empty_minishard_below_populated": 0,
+        "max_chunks_in_minishard": 0}
     nb = morton_spec.bits_per_axis(cfg["grid"])
     obs = {"stored_chunks": 0, "chunks_retrieved_by_spec_reader": 0, "shard_files_parsed": 0,
            "subset_kinds": {kind: 1},
@@ -118,7 +131,9 @@ def run_case(case):
            "minishard_with_41_or_more_chunks": int(prof["max_chunks_in_minishard"] >= 41),
            "bits_total_over_64": int(cfg["minishard_bits"] + cfg["shard_bits"]
                                      + cfg["preshift_bits"] > 64),
-           "strategies": {str(case["strategy"]): 1}}
+           "strategies": {str(case["strategy"]): 1},
+           "identifiers_ge_2_16": int(max(shardlib.cmc_of(cfg, p) for p in subset) >= 2 ** 16),
+           "identifiers_ge_2_32": int(max(shardlib.cmc_of(cfg, p) for p in subset) >= 2 ** 32)}
     ctx = (f"grid {cfg['grid']} chunk {cfg['chunk']} bits(m,s,p)=({cfg['minishard_bits']},"
            f"{cfg['shard_bits']},{cfg['preshift_bits']}) enc(index,data)=("
            f"{cfg['minishard_index_encoding']},{cfg['data_encoding']}) subset={kind}"
@@ -228,6 +243,8 @@ def gates(obs, tier):
         "long_minishard_index": obs.get("minishard_with_41_or_more_chunks", 0) > 0,
         "bit_totals_beyond_64": obs.get("bits_total_over_64", 0) > 0,
         "both_strategies": len(obs.get("strategies", {})) >= 2,
+        "identifiers_beyond_2_16_and_2_32": obs.get("identifiers_ge_2_16", 0) > 0
+        and obs.get("identifiers_ge_2_32", 0) > 0,
         "routing_contracts_evaluated": ce.get("compressed_morton_code", 0) > 0
         and ce.get("get_shard_key", 0) > 0,
     }
